@@ -8,9 +8,11 @@ def ASSERT_VARIANT(ctx):
     return ctx.N.exec_enum("router") + "::AssertMinimumReceive"
 
 
-def option_edges(ctx, fn, value_root):
-    """(some_edge, none_edge) of the switch on discr(value) where roots(value) == {value_root}."""
+def option_edges(ctx, fn, value_root, all_tests=False):
+    """(some_edge, none_edge) of the switch on discr(value) where roots(value) == {value_root}; with all_tests, the list
+    of all such pairs (an option may be tested more than once: once to describe it in an attribute, once to act on it)."""
     P = ctx.P
+    found = []
     for s, blk in enumerate(fn.body.blocks):
         if blk["cleanup"] or blk["term"]["k"] != "switch":
             continue
@@ -32,8 +34,10 @@ def option_edges(ctx, fn, value_root):
                 elif none is None:
                     none = (s, o)
             if some and none:
-                return some, none
-    return None
+                if not all_tests:
+                    return some, none
+                found.append((some, none))
+    return found if all_tests else None
 
 
 def flat(rs):
@@ -100,7 +104,8 @@ def run(ctx):
             len(asserts), [a[0].path for a in asserts]))
         return
     afn, ab, ai, av, aspan = asserts[0]
-    oe = option_edges(ctx, acc, P_(acc, min_i))
+    oes = option_edges(ctx, acc, P_(acc, min_i), all_tests=True)
+    oe = oes[0] if oes else None
     if oe is None:
         r1.fail("C11.R1:no-option-test", acc.path, acc.span, "no test of minimum_receive being Some/None found: unrecognised-idiom")
         return
@@ -162,10 +167,11 @@ def run(ctx):
         pushed = "|".join(sorted(ctx.roots(pv[4][1])))
         if not pushed.startswith("A:cosmwasm_std::CosmosMsg::Wasm{0=A:cosmwasm_std::WasmMsg::Execute{contract_addr=%s,msg=bin(A:%s{" % (P_(acc, env, ".contract.address"), ASSERT_VARIANT(ctx))):
             r1.fail("C11.R1:pushed-message", acc.path, common.span_of_block_term(acc, pb), "the appended message is not the router's own AssertMinimumReceive: %s" % pushed[:200])
-        elif not body.edge_dominates(some_e, pb):
+        elif not any(body.edge_dominates(se, pb) for se, _ in oes):
             r1.fail("C11.R1:push-region", acc.path, common.span_of_block_term(acc, pb), "the assertion is appended outside the `minimum_receive is Some` region")
         else:
             # on the Some region every success exit passes the push
+            some_e = [se for se, _ in oes if body.edge_dominates(se, pb)][0]
             bad = False
             for (b, i, cls, v) in common.ok_exit_blocks(P, acc):
                 if b in body.reachable_from(some_e[1], cut_blocks=(pb,)):
